@@ -216,6 +216,8 @@ func (r *StatusVectorChunk) Unmarshal(rawPacket []byte) error {
 
 	r.Type = TypeTCCStatusVectorChunk
 	r.SymbolSize = getNBitsFromByte(rawPacket[0], 1, 1)
+	// do not append to the symbols of an earlier decode into the same chunk
+	r.SymbolList = nil
 
 	if r.SymbolSize == TypeTCCSymbolSizeOneBit {
 		for i := uint16(0); i < 6; i++ {
